@@ -65,13 +65,14 @@ func listDir(dir string) ([]dirEntryOut, bool) {
 func runFiles(raw json.RawMessage) interface{} {
 	var in filesIn
 	must(json.Unmarshal(raw, &in))
-	// the generated tree sits two levels below a private directory: `../` and `../../` typed at its top
-	// must not reach the shared temp directory, whose content changes while the case runs
+	// the generated tree sits eight levels below a private directory: no chain of `../` the generator can
+	// type (one more than the depth of the tree, from a Chdir target at its top) reaches the shared temp
+	// directory, whose content changes while the case runs
 	base, err := os.MkdirTemp("", "verif-files")
 	must(err)
 	base, _ = filepath.EvalSymlinks(base)
 	defer os.RemoveAll(base)
-	root := filepath.Join(base, "up", "root")
+	root := filepath.Join(base, "u1", "u2", "u3", "u4", "u5", "u6", "up", "root")
 	must(os.MkdirAll(root, 0o755))
 	sub := func(s string) string { return strings.ReplaceAll(s, "$ROOT", root) }
 	unsub := func(s string) string { return strings.ReplaceAll(s, root, "$ROOT") }
